@@ -12,6 +12,7 @@
 #include <map>
 #include <optional>
 #include <set>
+#include <memory>
 #include <sstream>
 #include <string>
 #include <tuple>
@@ -117,6 +118,11 @@ template< typename F> void tryOpt( Built& b, const char* what, F f)
    }
 }
 
+inline unsigned fnv1aShort( const std::string& s)
+{
+   return static_cast< unsigned>( sim::fnv1a( s.data(), s.size()) % 9000);
+}
+
 inline bool has( const Json& recipe, const char* set)
 {
    const Json&  sets = recipe.get( "sets");
@@ -146,6 +152,9 @@ inline void build( Handler& h, Handler* sub, Dest& d, const Json& recipe, Built&
    const std::string&  card = recipe.gets( "card");
    const std::string&  constraint = recipe.gets( "constraint");
    const bool          mandatory = recipe.geti( "mandatory", 0) != 0;
+   // run specific text that ends up in patterns / value lists, so that state
+   // keyed by such content cannot be warm from an earlier run
+   const std::string&  token = recipe.gets( "token");
 
    auto listOpts = [ &]( pa::detail::TypedArgBase* a, ArgInfo& ai)
    {
@@ -180,7 +189,13 @@ inline void build( Handler& h, Handler* sub, Dest& d, const Json& recipe, Built&
       if (check == "lower") { tryOpt( out, "lower", [ &] { ai_->addCheck( pa::lower( 10)); }); ii.lo = 10; }
       else if (check == "upper") { tryOpt( out, "upper", [ &] { ai_->addCheck( pa::upper( 50)); }); ii.hi = 49; }
       else if (check == "range") { tryOpt( out, "range", [ &] { ai_->addCheck( pa::range( 5, 25)); }); ii.lo = 5; ii.hi = 24; }
-      else if (check == "values") { tryOpt( out, "values", [ &] { ai_->addCheck( pa::values( "3,7,11")); }); ii.allowed = { "3", "7", "11"}; }
+      else if (check == "values")
+      {
+         // (the run specific token makes the list differ from run to run)
+         const std::string  extra = token.empty() ? std::string( "13") : std::to_string( 1000 + fnv1aShort( token));
+         tryOpt( out, "values", [ &] { ai_->addCheck( pa::values( "3,7,11," + extra)); });
+         ii.allowed = { "3", "7", "11", extra};
+      }
       out.args.push_back( ii);
       h.addArgument( "l,long-val", DEST_VAR( d.l), "long");
       out.args.push_back( ArgInfo{ "l", "long-val", kInt});
@@ -192,7 +207,7 @@ inline void build( Handler& h, Handler* sub, Dest& d, const Json& recipe, Built&
       ArgInfo  si{ "s", "str", kStr};
       if (fmt == "upper") tryOpt( out, "uppercase", [ &] { as->addFormat( pa::uppercase()); });
       else if (fmt == "lower") tryOpt( out, "lowercase", [ &] { as->addFormat( pa::lowercase()); });
-      if (check == "pattern") tryOpt( out, "pattern", [ &] { as->addCheck( pa::pattern( "^[a-zA-Z0-9 _.:'\"\\\\-]*$")); });
+      if (check == "pattern") tryOpt( out, "pattern", [ &] { as->addCheck( pa::pattern( "^[a-zA-Z0-9 _.:'\"\\\\-]*$" + (token.empty() ? std::string() : "|^" + token + "$"))); });
       if (check == "minlen") tryOpt( out, "minLength", [ &] { as->addCheck( pa::minLength( 1)); });
       out.args.push_back( si);
       if (constraint == "requires") tryOpt( out, "requires", [ &] { ai_->addConstraint( pa::requiresArg( "s")); });
@@ -308,6 +323,32 @@ inline void build( Handler& h, Handler* sub, Dest& d, const Json& recipe, Built&
       out.args.push_back( i1);
       out.args.push_back( i2);
    }
+}
+
+/// What the generators need to know about a recipe's arguments, obtained from
+/// a scratch set-up that uses a neutral token: the generator runs in the same
+/// process as the simulated run and must not warm anything that is keyed by
+/// the run specific content (patterns, value lists).
+inline void describeRecipe( const Json& recipe, Built& out, bool with_subgroup)
+{
+   Json  neutral = recipe;
+   neutral[ "token"] = "gen";
+   Dest                d;
+   std::ostringstream  o1, o2;
+   try
+   {
+      Handler                    h( o1, o2, 0);
+      std::unique_ptr< Handler>  sub;
+      if (with_subgroup && has( neutral, "R14")) sub.reset( new Handler( h, 0));
+      build( h, sub.get(), d, neutral, out);
+   } catch (const std::exception&)
+   {
+   }
+   const std::string&  token = recipe.gets( "token");
+   if (!token.empty())
+      for (auto & a : out.args)
+         if (a.allowed.size() == 4)
+            a.allowed[ 3] = std::to_string( 1000 + fnv1aShort( token));
 }
 
 /// draws a recipe (which sets, which options)
